@@ -210,6 +210,7 @@ func (m *ocMachine) step(x *hx, o op) {
 				x.failOp("wrong-return", "Modify(%d) returned %+v, model value %d", id, res, nv)
 			} else {
 				res.val = -7 // must be a copy
+				holdOcItem(x, "Modify", res, id, -7)
 			}
 		} else if res != nil {
 			x.failOp("wrong-return", "Modify(%d) on a missing id returned an item", id)
@@ -231,6 +232,7 @@ func (m *ocMachine) step(x *hx, o op) {
 			x.failOp("wrong-return", "Get(%d) = %+v, model %d", id, res, cur)
 		} else if has {
 			res.val = -7 // must be a copy
+			holdOcItem(x, "Get", res, id, -7)
 		}
 	case "CallbacksEnabled":
 		if m.enabled != (o.arg(0) == 1) {
@@ -276,6 +278,12 @@ func (m *ocMachine) step(x *hx, o op) {
 	}
 	if !eqMap(am, m.model) {
 		x.failOp("wrong-All", "All() = %v, model %v", am, m.model)
+	} else {
+		for k, it := range all {
+			holdOcItem(x, "All-item", it, k, -9)
+			break // one clone per step is enough, the map itself is held below
+		}
+		holdMap(x, "All", all, heldGarbage, (*ocItem)(nil))
 	}
 	for k := 0; k < ocIDs; k++ {
 		res, err := m.real.Get(ocID(k))
@@ -287,6 +295,20 @@ func (m *ocMachine) step(x *hx, o op) {
 	if len(m.log) != 0 {
 		x.failOp("readers-trigger-callbacks", "All/Get triggered callbacks %v", m.log)
 	}
+}
+
+// holdOcItem keeps a clone the map handed out (already scribbled to val): later operations on
+// the map must not touch it.
+func holdOcItem(x *hx, name string, it *ocItem, id, val int) {
+	holdCustom(x, name, func() string {
+		if int(it.id) != id || it.val != val {
+			return fmt.Sprintf("the copy of item %d (value set to %d by the caller) is now %+v", id, val, *it)
+		}
+		return ""
+	}, func(kind int) {
+		val = heldGarbage - kind
+		it.val = val
+	})
 }
 
 func (m *ocMachine) drain(x *hx) {
